@@ -17,7 +17,12 @@ class Match(FilterFunction):
 
     def __call__(self, string: str, pattern: object) -> bool:
         """Return `True` if _string_ matches _pattern_, or `False` otherwise."""
-        if not isinstance(pattern, str) or not check(pattern):
+        try:
+            if not isinstance(pattern, str) or not check(pattern):
+                return False
+        except UnicodeError:
+            # A pattern with a lone surrogate (json.loads accepts "\ud800") can
+            # not be an I-Regexp.
             return False
 
         try:
